@@ -179,9 +179,12 @@ def subst_jets(pl, base):
     return sub(pl)
 
 
-def fans_oracle(coords2, time):
-    """Favre-averaged compressible Navier-Stokes closed with Spalart-Allmaras (no wall term), over jet variables"""
-    rho, u, v, P, nu = [S(n) for n in ('@rho', '@u', '@v', '@p', '@nu')]
+def fans_oracle(coords2, time, F=None, wall=None, S_override=None):
+    """Favre-averaged compressible Navier-Stokes closed with Spalart-Allmaras.  F: field polynomials (jet symbols by
+    default).  wall = (d, f_w, c_w1) adds the wall destruction term; S_override replaces |omega| by the given S."""
+    if F is None:
+        F = {k: S(v) for k, v in (('rho', '@rho'), ('u', '@u'), ('v', '@v'), ('p', '@p'), ('nu', '@nu'))}
+    rho, u, v, P, nu = F['rho'], F['u'], F['v'], F['p'], F['nu']
     mu = S('mu')
     chi = mul(mul(rho, nu), S('mu', -1))
     chi3 = poly.ipow(chi, 3)
@@ -207,13 +210,19 @@ def fans_oracle(coords2, time):
         for j in range(2):
             r = add(r, d(tau(i, j, mueff), sp[j]), -1)
         R['rho_' + 'uv'[i]] = r
-    om = add(d(u, sp[1]), d(v, sp[0]), -1)
-    Sv = poly.atom(('fn', 'sqrt', (poly.canon(mul(om, om)),)))
+    if S_override is not None:
+        Sv = S_override
+    else:
+        om = add(d(u, sp[1]), d(v, sp[0]), -1)
+        Sv = poly.atom(('fn', 'sqrt', (poly.canon(mul(om, om)),)))
     sa = add(d(mul(rho, nu), time) if time else {}, add(d(mul(mul(rho, u), nu), sp[0]), d(mul(mul(rho, v), nu), sp[1])))
     dif = add(d(mul(add(mu, mul(rho, nu)), d(nu, sp[0])), sp[0]), d(mul(add(mu, mul(rho, nu)), d(nu, sp[1])), sp[1]))
     g2 = add(mul(d(nu, sp[0]), d(nu, sp[0])), mul(d(nu, sp[1]), d(nu, sp[1])))
     sa = add(sa, mul(inv(S('sigma')), add(dif, mul(mul(S('c_b2'), rho), g2))), -1)
     sa = add(sa, mul(mul(mul(S('c_b1'), Sv), rho), nu), -1)
+    if wall is not None:
+        dist, fw, cw1 = wall
+        sa = add(sa, mul(mul(mul(cw1, fw), rho), poly.ipow(mul(nu, inv(dist)), 2)))
     R['nu'] = sa
     cv = mul(S('R'), inv(add(S('Gamma'), poly.const(-1))))
     cp = mul(S('Gamma'), cv)
